@@ -153,9 +153,12 @@ UPDEPTH = {"quick": 4, "thorough": 6}
 
 
 def analyse_rules(repo: Optional[str], tier: str, rules: Optional[List[str]] = None,
-                  use_cache: bool = True) -> List[dict]:
+                  use_cache: bool = True, extra_cfg: Optional[dict] = None) -> List[dict]:
     prog, S = _setup(repo)
-    cfg = {"max_updepth": UPDEPTH[tier]}
+    # equal_chain: the domain of input trees is W' - an equation is the root or the left operand of an equation (the parser
+    # reads "a = b = c" as Equal(Equal(a, b), c))
+    cfg = {"max_updepth": UPDEPTH[tier], "equal_chain": True}
+    cfg.update(extra_cfg or {})
     digest = source_digest(prog, extra=json.dumps(cfg, sort_keys=True) + tier + _self_digest())
     cache = VERIF / ".cache" / f"rulecases-{digest}.json"
     if use_cache and cache.exists() and rules is None:
@@ -504,7 +507,7 @@ def _judge_value(tb, ta, subst, ok, cons, it: Interp) -> dict:
             return {"verdict": "differ", "equation": True,
                     "why": "an equation was replaced by a non-equation (or vice versa)"}
         if any(_contains_eq(x) for x in (tb[1], tb[2], ta[1], ta[2])):
-            return {"verdict": "undecided", "equation": True, "why": "nested equation"}
+            return _judge_chain(tb, ta, subst)
         d1 = ("sub", tb[1], tb[2])
         d2 = ("sub", ta[1], ta[2])
         try:
@@ -551,6 +554,44 @@ def _judge_value(tb, ta, subst, ok, cons, it: Interp) -> dict:
     if status == "differ":
         return {"verdict": "differ", "witness": w, "why": "values differ at the witness assignment"}
     return {"verdict": "undecided", "why": f"normal forms differ but sampling says {status}"}
+
+
+def _chain_sides(t) -> Optional[List[tuple]]:
+    """Sides of a chained equation (its equations are the top region of the tree), in order; None when an equation sits
+    below an arithmetic operator."""
+    if t[0] == "eq":
+        l, r = _chain_sides(t[1]), _chain_sides(t[2])
+        return None if l is None or r is None else l + r
+    return None if _contains_eq(t) else [t]
+
+
+def _judge_chain(tb, ta, subst) -> dict:
+    """a = b = c holds where all its sides are equal.  Decided here: the result has the same sides up to order, each with
+    the same value (a rewrite inside one side, a swap of sides)."""
+    sb, sa_ = _chain_sides(tb), _chain_sides(ta)
+    if sb is None:
+        return {"verdict": "undecided", "equation": True, "why": "the input has an equation below an arithmetic operator"}
+    if sa_ is None:
+        return {"verdict": "differ", "equation": True,
+                "why": "the result applies an arithmetic operator to an equation: it has no value and no solution set, and "
+                       "its text is not in the grammar"}
+    if len(sb) != len(sa_):
+        return {"verdict": "undecided", "equation": True, "why": f"chain of {len(sb)} sides became a chain of {len(sa_)}"}
+    left = list(sa_)
+    for x in sb:
+        hit = None
+        for i, y in enumerate(left):
+            try:
+                if x == y or A.equal_nf(x, y, subst):
+                    hit = i
+                    break
+            except Exception:  # pragma: no cover
+                continue
+        if hit is None:
+            return {"verdict": "undecided", "equation": True,
+                    "why": f"chained equation: no side of the result has the value of the side {_tstr(x)}"}
+        left.pop(hit)
+    return {"verdict": "equal", "equation": True, "unit": "chain: same sides"}
 
 
 def _known_nonzero(it: Interp, s) -> bool:
@@ -637,6 +678,10 @@ def _audit_links(it: Interp, hv: HeapView, at: int) -> List[dict]:
                     problems.append({"what": f"{s} child's parent pointer does not point back",
                                      "parent": hv.shape(cid, "cur"), "child": hv.shape(v.cid, "cur"),
                                      "child_parent": hv.shape(pv.cid, "cur") if isinstance(pv, Node) else repr(pv)})
+                if hv.kinds(v.cid) <= {"EqualExpression"} and "EqualExpression" not in ks:
+                    # evaluate() has no value for it and the text "(a = b) op c" is not in the grammar
+                    problems.append({"what": "an equation is an operand of an arithmetic operator",
+                                     "parent": hv.shape(cid, "cur"), "child": hv.shape(v.cid, "cur")})
                 stack.append((v.cid, depth + 1))
         explicit = any(v is not _MISSING for v in vals.values())
         if explicit:
